@@ -567,6 +567,17 @@ impl Model {
                 Ok(())
             }
             Op::Chdir { .. } | Op::AgeCache { .. } => Ok(()),
+            Op::ForeignTombstone { bucket_of, key } if ctx.key(*bucket_of) == ctx.key(*key) => {
+                self.set_tombstone(ctx.key(*key));
+                Ok(())
+            }
+            Op::ForeignTombstone { bucket_of, .. } => {
+                let k = ctx.key(*bucket_of).to_string();
+                self.index.entry(k).or_default().bucket_exists = true;
+                self.index_dir = true;
+                self.list_unjudged = true;
+                Ok(())
+            }
             Op::ForeignRecord { bucket_of, .. } => {
                 let k = ctx.key(*bucket_of).to_string();
                 self.index.entry(k).or_default().bucket_exists = true;
